@@ -7,9 +7,6 @@
 //	                               OnExit (and every OnOpcode inside a static context) the tracer
 //	                               projects the real StateDB over a small universe and logs it;
 //	                               FramesTrace.tla validates the frame discipline
-//	-mode shapes -in shapes.json   R: nesting shapes enumerated by TLC from MCFrames.tla are compiled
-//	                               to contracts and executed; the surviving marks must be exactly
-//	                               the ones the specification keeps
 package main
 
 import (
@@ -339,8 +336,7 @@ func runRecord(path string, seed int64, n, maxEvents int, sum *tl.Summary) {
 }
 
 func main() {
-	mode := flag.String("mode", "record", "record|shapes")
-	in := flag.String("in", "", "shapes json (mode shapes)")
+	mode := flag.String("mode", "record", "record")
 	trace := flag.String("trace", "trace.ndjson", "output trace (mode record)")
 	out := flag.String("out", "summary.json", "summary output")
 	n := flag.Int("n", 40, "number of generated programs")
@@ -351,8 +347,6 @@ func main() {
 	switch *mode {
 	case "record":
 		runRecord(*trace, seed, *n, *maxEvents, sum)
-	case "shapes":
-		runShapes(*in, sum)
 	default:
 		tl.Fatal("bad mode")
 	}
